@@ -72,7 +72,7 @@ def _process_signal(case, tally):
     d = tempfile.mkdtemp(prefix="hv-c15p-")
     path, logf = os.path.join(d, "s.sock"), os.path.join(d, "log")
     cmd = [sys.executable, "-m", "hypercorn", "--bind", "unix:" + path, "--workers", str(workers), "--worker-class", be,
-           "--graceful-timeout", "3", "hv.apps.procapp:app"]
+           "--graceful-timeout", "10", "hv.apps.procapp:app"]
     proc = subprocess.Popen(cmd, env=dict(os.environ, HV_PROC_LOG=logf), stdout=subprocess.PIPE, stderr=subprocess.STDOUT, cwd=d)
     results, rc = {}, None
     try:
@@ -141,7 +141,7 @@ def _process_signal(case, tally):
     bad = [i for i in range(nconn) if not (isinstance(results.get(i), bytes) and results[i].startswith(b"HTTP/1.1 200") and (b"path=/slow%d" % i) in results[i])]
     if bad:
         findings.append({"clause": "inflight-delivered", "sig": "C15.process/inflight-lost/%s" % be, "backend": be,
-                         "detail": "%s to the master with %d requests in progress (0.3-1.5 s, graceful_timeout 3 s): requests %r were not delivered in full (%r)" % (
+                         "detail": "%s to the master with %d requests in progress (0.3-1.5 s, graceful_timeout 10 s): requests %r were not delivered in full (%r)" % (
                              signal.Signals(sig).name, nconn, bad[:6], (results.get(bad[0]) or b"")[:60])})
     for pid in sorted({f[1] for f in log}):
         mine = [f for f in log if f[1] == pid]
@@ -161,7 +161,7 @@ def _process_signal(case, tally):
                              "detail": "worker %s completed its start-up and the master exited with status 0, but the worker was never sent lifespan.shutdown" % pid})
     if rc == "timeout":
         findings.append({"clause": "bounded", "sig": "C15.process/master-did-not-exit/%s" % be, "backend": be,
-                         "detail": "the master had not exited 25 s after %s (graceful_timeout 3 s)" % signal.Signals(sig).name})
+                         "detail": "the master had not exited 25 s after %s (graceful_timeout 10 s, requests of at most 1.5 s)" % signal.Signals(sig).name})
     elif rc != 0:
         findings.append({"clause": "bounded", "sig": "C15.process/master-exit-status/%s" % be, "backend": be,
                          "detail": "the master exited with status %r after %s and an orderly drain" % (rc, signal.Signals(sig).name)})
@@ -259,7 +259,7 @@ def run_one(case, tally):
     }
     if case.get("ls"):
         apps["lifespan"] = apps["lifespan"] + ([["sleep", 0.15]] if case["ls"] == "lingers" else [["yield", 2]])
-    cfg = {"graceful_timeout": GRACE if kind not in ("inflight_short", "pipelined_behind_inflight", "h2_two_inflight") else 3.0, "shutdown_timeout": SHUT, "keep_alive_timeout": 30.0}
+    cfg = {"graceful_timeout": GRACE if kind not in ("inflight_short", "pipelined_behind_inflight", "h2_two_inflight", "burst_across_trigger") else 3.0, "shutdown_timeout": SHUT, "keep_alive_timeout": 30.0}
     if case["trigger"] == "max_requests":
         cfg["max_requests"] = 2
     h = ServeHarness(be, cfg, apps)
